@@ -33,8 +33,7 @@ def check_one(sp, opts, acc, tag=""):
     first = None
     for poison in env.POISONS:
         try:
-            with env.poisoned_allocator(poison):
-                d, pos = specs.lib_decode(t, fmt, b1)
+            d, pos = specs.lib_decode(t, fmt, b1, poison=poison)
             acc.n["transitions"] += 1
             got = specs.extract(d)
         except Exception as e:
